@@ -41,7 +41,7 @@ CHECKS = {
     "C15": (
         "polynomial normal forms in Q[sin, cos, C_k] + independently derived oracle constants (mpmath) + derived error budget",
         "The evaluator body is turned into a polynomial in sin(phi), cos(phi), phi and symbolic coefficients, reduced modulo s^2 + c^2 = 1, and compared with the normal form of phi + sum C_k sin(2(k+1)phi) for all phi at once; a residual is bounded with the literal coefficients (the shipped recurrence omits one -C[5] term: <= 2e-14 rad). The two literal tables are compared with the Fourier coefficients of the exact WGS84 authalic latitude and of its exact inverse, computed by mpmath from the definition (never from repository code). Wiring of forward/inverse and from_lonlat/to_lonlat is checked structurally. Oddness, the fixed points, strict monotonicity, the floating-point error budget and the round-trip bound are derived from the literals. A deviation is reported as a violation only with a witness latitude that breaks the 1e-10 or the 1e-12 clause.",
-        "Trusted: mpmath (zip-imported from the offline wheelhouse) at 30/50 digits, WGS84 1/f typed into the checker, IEEE doubles, libm sin/cos within 1 ulp.",
+        "Trusted: mpmath (zip-imported from the offline wheelhouse) at 30/50 digits, WGS84 1/f typed into the checker, IEEE doubles, libm sin/cos within 1 ulp. C15.11 (round 11): cos(phi) taken as sqrt(1 - sin(phi)**2) is judged by evaluating the extracted polynomial exactly at the doubles the code would pass, for latitudes 1e-4..1e-9 rad from the pole (witness or undecided).",
         "DESIGN.md section 3, C15",
     ),
     "C16": (
@@ -95,7 +95,7 @@ CHECKS = {
     "C19": (
         "string-shape abstract interpretation (custom ast analysis)",
         "Abstract interpretation of the two functions of a5/core/hex.py over a string-shape domain (base, case, prefix, sign, padding, minimality, emptiness). The producer is evaluated on the abstract argument 'int in [0, 2**64)', the parser on 'hexadecimal numeral, either case, leading zeros'; the required shapes are compared per return path, so the verdict covers all 2**64 values at once without enumerating any. Unmodelled constructs give UNDECIDED (exit 0), never an alarm.",
-        "Trusted: CPython's documented behaviour of hex/int/format/str methods as transcribed into sa/strshape.py. Assumes the property's quantifier (int argument in [0, 2**64), str argument).",
+        "Trusted: CPython's documented behaviour of hex/int/format/str methods as transcribed into sa/strshape.py. Assumes the property's quantifier (int argument in [0, 2**64), str argument). C19.4 (round 11): a truncated true division of the id by an integer constant that reaches the returned text is reported with a witness id (int(n / c) != n // c) folded through the guards in front of the statement.",
         "DESIGN.md section 3, C19",
     ),
 }
